@@ -150,6 +150,17 @@ where
         RegexError::CompiledTooBig(_) => CompileError {
             kind: CompileErrorKind::OversizedProgram,
         },
+        // The encoded expression is well formed by construction, but the back end also limits the
+        // nesting of groups and the magnitude of repetition bounds and reports such excesses as
+        // syntax errors. These limits are reached by very deeply nested branches and by
+        // repetition bounds that do not fit 32 bits.
+        RegexError::Syntax(ref message)
+            if message.contains("nested") || message.contains("decimal literal") =>
+        {
+            CompileError {
+                kind: CompileErrorKind::OversizedProgram,
+            }
+        },
         _ => panic!("failed to compile glob"),
     })
 }
